@@ -317,7 +317,7 @@ def parserContains (t : Ty) (o : JVal) : Option Bool :=
   | .int => some (o.kind == .int)
   | .float => some (o.kind == .float)
   | .bool => some (o.kind == .bool)
-  | .none => some (o.kind == .null)
+  | .none => some false      -- `tuple[X, None]` keeps the value `None` (not NoneType) as argument: IdentityParser(base_type=None)
   | .seq .list _ => some (o.kind == .list)
   | .map .dict _ _ => some (o.kind == .dict)
   | .literal vs => if o.hashable then some (vs.any (fun l => jEqLit o l)) else none
@@ -453,6 +453,23 @@ def loadClassWith (fieldLoader : S → JVal → LRes) (eff : MetaCfg) (ci : Clas
   | .str s => loadJunkKeys eff ci (.str s) (s.map (fun c => JVal.str [c]))
   | _ => .error (.parse (some ci.name) none)
 
+/-- `load_to_typed_dict` on a non-dict: `o[k]` for a required key raises (-> ParseError); an optional key is
+only looked at when `k in o` holds (list membership / substring test), and then `o[k]` raises as well. -/
+def isInfix (p s : S) : Bool :=
+  match s with
+  | [] => p.isEmpty
+  | c :: r => p.isPrefixOf (c :: r) || isInfix p r
+
+def tdJunk (fields : List (S × Ty × Bool)) (o : JVal) : LRes :=
+  if fields.any (fun f => f.2.2) then parseE
+  else
+    match o with
+    | .list xs =>
+      if fields.any (fun f => xs.any (fun x => match x with | .str s => s == f.1 | _ => false)) then parseE
+      else pure (.map .dict [])
+    | .str s => if fields.any (fun f => isInfix f.1 s) then parseE else pure (.map .dict [])
+    | _ => if fields.isEmpty then pure (.map .dict []) else parseE
+
 def mapME {α β} (f : α → Except LErr β) : List α → Except LErr (List β)
   | [] => pure []
   | x :: xs => do
@@ -495,9 +512,9 @@ def loadD (std : Std) (cfg : Option MetaCfg) : Ty → JVal → LRes
       | .null => pure .none
       | _ => loadD std cfg t o
   | .union ts, o =>
-      match o with
-      | .null => pure .none
-      | _ =>
+      -- `None` is returned as-is only when NoneType is one of the Union arguments
+      if o.kind == .null && ts.any (fun t => match t with | .none => true | _ => false) then pure .none
+      else
         match loadUnionTry std cfg ts o with
         | some r => r
         | none =>
@@ -569,7 +586,7 @@ def loadD (std : Std) (cfg : Option MetaCfg) : Ty → JVal → LRes
       | .dict kvs => do
           let ps ← loadTd std cfg fields kvs
           pure (.map .dict ps)
-      | _ => parseE
+      | _ => tdJunk fields o
   | .cls ci ftys, o =>
       loadClassWith (fun f v => loadField std cfg f v ftys) (effMeta ci.cmeta cfg) ci o
 
